@@ -93,11 +93,15 @@ fn absorb(acc: &mut Acc, prop: &str, engine: &str, out: ExecOut, replay: String)
     acc.evaluations += 1;
     *acc.by_key.entry(format!("{engine}:{}", out.key)).or_default() += 1;
     if let Some(m) = &out.inconclusive {
-        acc.inconclusive += 1;
-        if acc.inconclusive_msgs.len() < 3 {
-            acc.inconclusive_msgs.push(format!("{m} [{replay}]"));
+        // an execution that ran out of harness budget proves nothing about what it did not reach; a monitor
+        // that fired before that point still fired
+        if !out.viol.iter().any(|v| v.props.iter().any(|p| *p == prop)) {
+            acc.inconclusive += 1;
+            if acc.inconclusive_msgs.len() < 3 {
+                acc.inconclusive_msgs.push(format!("{m} [{replay}]"));
+            }
+            return;
         }
-        return;
     }
     if out.nontrivial {
         acc.nontrivial += 1;
